@@ -141,9 +141,10 @@ claim("C10", "field-write discipline + linear-use dataflow + who-may-call rules 
       "a node taken earlier and pushed on the pending trivia later (a delayed skip) is pushed while no trivia consumed after its first token "
       "can still be pending, and no node taken after it is kept in the tree (summaries of what each parser routine may leave pending, per "
       "returned variant, and which routines always flush)." + DECIDES +
-      " The order of trivia inside callbacks and take_doc's split are not decided. Two genuine losses found by these rules were repaired in /repo "
-      "(fix: commits 273025f, a31d98e); nine are recorded known findings (`pub` before an inline macro item, two path classes; seven delayed "
-      "skips that re-attach skipped text out of source order, e.g. `b::fn x;`).",
+      " take_doc's split is not decided. Genuine defects found by these rules were repaired in /repo: two lost tokens "
+      "(fix: commits 273025f, a31d98e) and seven delayed skips that re-attached skipped text out of source order, e.g. `b::fn x;` (fix: bb7a9e8); "
+      "`pub` before an inline macro item (two path classes) is a recorded known finding. A routine that receives the text of a file hands that very "
+      "slice to the lexer.",
       "trusted: rustc MIR, fact dumper; assumes TextSpan::take slices exactly the addressed text and Vec::extend/push append in order",
       "DESIGN.md section 4, C10")
 claim("C11", "path rules on MIR: must-pass-through inside loops, control dependence on kind-equality tests, option-flag gating",
